@@ -225,6 +225,7 @@ pub(crate) fn stub_remove_station(r: &mut TokenRing, address: crate::Address) {
 
 /// set_next_station(a): a becomes the successor, the LAS state is untouched, the invariant holds.
 #[kani::proof]
+#[kani::unwind(4)]
 fn c02_model_set_next() {
     let ts: u8 = kani::any();
     kani::assume(ts <= 125);
@@ -242,6 +243,7 @@ fn c02_model_set_next() {
 
 /// remove_station(a): a is not the successor afterwards, only a leaves the LAS.
 #[kani::proof]
+#[kani::unwind(4)]
 fn c02_model_remove() {
     let ts: u8 = kani::any();
     kani::assume(ts <= 125);
@@ -260,6 +262,7 @@ fn c02_model_remove() {
 /// Witnessing a pass: removes exactly the jumped-over addresses and enters the sender; invalid
 /// addresses are ignored; the own pass to the current successor changes neither NS nor PS.
 #[kani::proof]
+#[kani::unwind(4)]
 fn c02_model_witness() {
     let ts: u8 = kani::any();
     kani::assume(ts <= 125);
@@ -378,6 +381,7 @@ fn model_update_next_previous(r: &mut TokenRing) {
 #[kani::stub(TokenRing::update_las_from_token_pass, model_update_las)]
 #[kani::stub(TokenRing::verify_las_from_token_pass, model_verify_las)]
 #[kani::stub(TokenRing::update_next_previous, model_update_next_previous)]
+#[kani::unwind(4)]
 fn c02_l1_control_flow() {
     let ts: u8 = kani::any();
     kani::assume(ts <= 125);
